@@ -13,7 +13,7 @@ using namespace sim;
 
 enum { OP_CS = 0, OP_PEEK, OP_THINK, OP_G, OP_N };
 static const char *op_names[OP_N] = {"cs", "peek", "think", "guard"};
-static const char *go_names[] = {"ctor_lock", "ctor_defer", "ctor_adopt", "ctor_default", "lock", "unlock", "move_ctor", "move_assign", "swap", "destroy", "is_locked", "protects", "guard()", "guard(dont_lock)", "copy_ctor(+destroy both)", "copy_assign(+destroy both)"};
+static const char *go_names[] = {"ctor_lock", "ctor_defer", "ctor_adopt", "ctor_default", "lock", "unlock", "move_ctor", "move_assign", "swap", "destroy", "is_locked", "protects", "guard()", "guard(dont_lock)", "copy_ctor(+destroy both)", "copy_assign(+destroy both)", "guard(adopt_lock)", "shared_guard()", "shared_guard(dont_lock)", "shared_guard(adopt_lock)"};
 enum { CFG_TICKET = 0, CFG_SIMPLE, CFG_GUARDS, CFG_QSGUARD, CFG_N };
 static const char *cfg_names[CFG_N] = {"ticket_spinlock", "simple_spinlock", "unique_lock+shared_lock<1-byte proxy of SimMutex>", "qs::lock_guard<1-byte proxy of SimMutex>"};
 
@@ -101,6 +101,7 @@ struct LockEngine : Engine {
 						if ((o.a[0] == GO_CTOR_LOCK || o.a[0] == GO_LOCK) && rng.chance(1, 8)) o.a[3] += 16;
 					} else {
 						o.a[0] = rng.below(16); // (copy ops 14/15 are skipped unless the guard type is copyable)
+						if (rng.chance(1, 10)) o.a[0] = GO_GUARD_ADOPT + rng.below(4); // factory helpers the unchanged tree does not have: skipped unless the tree offers them
 						int ty = (int)rng.below(2); // 0: unique slots 0,1 ; 1: shared slots 2,3
 						o.a[1] = ty * 2 + rng.below(2); o.a[2] = ty * 2 + rng.below(2); o.a[3] = rng.below(nm);
 						if ((o.a[0] == GO_CTOR_LOCK || o.a[0] == GO_LOCK) && rng.chance(1, 6)) o.a[3] += 16; // this acquisition fails: the mutex's lock() throws
@@ -218,15 +219,16 @@ struct LockEngine : Engine {
 		if (gop < 0 || gop >= GO_N) { probe(P_guard_skipped); return; }
 		if (cfg == CFG_QSGUARD) { a &= 1; b &= 1; }
 		else if ((a >= 2) != (b >= 2)) b = a;
+		if (gop == GO_GUARD_LOCK || gop == GO_GUARD_DEFER || gop == GO_GUARD_ADOPT) { if (cfg != CFG_GUARDS) { probe(P_guard_skipped); return; } if (a >= 2) a -= 2; b = a; gt = GT_UNIQUE; }
+		if (gop == GO_SGUARD_LOCK || gop == GO_SGUARD_DEFER || gop == GO_SGUARD_ADOPT) { if (cfg != CFG_GUARDS) { probe(P_guard_skipped); return; } if (a < 2) a += 2; b = a; gt = GT_SHARED; }
 		if (!sut_guard_has(gt, gop)) { probe(P_guard_skipped); return; } // the guard type of this tree does not offer the operation
 		if (cfg == CFG_QSGUARD && gop != GO_CTOR_LOCK && gop != GO_LOCK && gop != GO_UNLOCK && gop != GO_DESTROY) probe(P_qs_extra_ops);
-		if (gop == GO_GUARD_LOCK || gop == GO_GUARD_DEFER) { if (cfg != CFG_GUARDS) { probe(P_guard_skipped); return; } if (a >= 2) a -= 2; b = a; gt = GT_UNIQUE; }
 		Slot &A = model[me][a], &B = model[me][b];
 		bool ok = true;
 		switch (gop) {
-		case GO_CTOR_LOCK: case GO_GUARD_LOCK: ok = !A.exists && !holds_ge(me, m); break;
-		case GO_CTOR_DEFER: case GO_CTOR_DEFAULT: case GO_GUARD_DEFER: ok = !A.exists; break;
-		case GO_CTOR_ADOPT: ok = !A.exists && !holds_ge(me, m); break;
+		case GO_CTOR_LOCK: case GO_GUARD_LOCK: case GO_SGUARD_LOCK: ok = !A.exists && !holds_ge(me, m); break;
+		case GO_CTOR_DEFER: case GO_CTOR_DEFAULT: case GO_GUARD_DEFER: case GO_SGUARD_DEFER: ok = !A.exists; break;
+		case GO_CTOR_ADOPT: case GO_GUARD_ADOPT: case GO_SGUARD_ADOPT: ok = !A.exists && !holds_ge(me, m); break;
 		case GO_LOCK: ok = A.exists && A.mutex >= 0 && !A.owns && !holds_ge(me, A.mutex); break;
 		case GO_UNLOCK: ok = A.exists && A.owns; break;
 		case GO_MOVE_CTOR: ok = !A.exists && B.exists && a != b; break;
@@ -251,10 +253,10 @@ struct LockEngine : Engine {
 			}
 			if (mtx[m]->owner >= 0 && mtx[m]->owner != me) probe(P_blocked_on_guard);
 			sut_guard_op(gt, gop, slots[me][a], nullptr, px[m]); A = {true, m, true}; break;
-		case GO_GUARD_LOCK: sut_guard_op(gt, gop, slots[me][a], nullptr, px[m]); A = {true, m, true}; break;
-		case GO_GUARD_DEFER:
+		case GO_GUARD_LOCK: case GO_SGUARD_LOCK: sut_guard_op(gt, gop, slots[me][a], nullptr, px[m]); A = {true, m, true}; break;
+		case GO_GUARD_DEFER: case GO_SGUARD_DEFER:
 		case GO_CTOR_DEFER: sut_guard_op(gt, gop, slots[me][a], nullptr, px[m]); A = {true, m, false}; break;
-		case GO_CTOR_ADOPT:
+		case GO_CTOR_ADOPT: case GO_GUARD_ADOPT: case GO_SGUARD_ADOPT:
 			probe(P_adopt);
 			if (gt == GT_SHARED) mtx[m]->lock_shared(); else mtx[m]->lock();
 			sut_guard_op(gt, gop, slots[me][a], nullptr, px[m]); A = {true, m, true}; break;
